@@ -407,6 +407,7 @@ func run(c *runner.Ctx) {
 		sharedRuleMap(c, d)
 		blanksInTags(c, d)
 		rulelessNested(c, d)
+		tagShapes(c, d)
 	}
 }
 
